@@ -101,7 +101,7 @@ def build_world(ctx):
     from whoosh import fields, analysis
     from whoosh.filedb.filestore import RamStorage
 
-    rng = random.Random("C16:%d:corpus" % ctx.seed)
+    rng = random.Random("C16:%d:%d:corpus" % (ctx.seed, ctx.shard))   # one corpus per shard: data-dependent mechanisms get 4 (16) chances
     schema = fields.Schema(
         id=fields.ID(stored=True, unique=True),
         t=fields.TEXT(stored=True),
@@ -638,6 +638,21 @@ def gen_tree(rng, prof, depth, st=None, top=True):
         return leaf
     r = rng.random()
     sub = lambda d=None: gen_tree(rng, prof, depth - 1 if d is None else d, st, False)  # noqa
+    if rng.random() < 0.08:
+        # a parenthesised binary operator over frequent plain words, driven by an intersecting parent (explicit AND,
+        # implicit sequence, REQUIRE): the parent positions the operator's matcher with skip_to() instead of next()
+        fw = lambda: ("term", None, rng.choice(VOCAB[:5]))  # noqa
+        inner = ("paren", (rng.choice(list(BINOPS)), fw(), fw()))
+        how = rng.random()
+        if how < 0.4:
+            kids = [fw(), inner] + ([fw()] if rng.random() < 0.3 else [])
+            rng.shuffle(kids)
+            return ("and", tuple(kids))
+        if how < 0.7:
+            kids = [fw(), inner]
+            rng.shuffle(kids)
+            return ("seq", tuple(kids))
+        return ("require", inner, fw()) if rng.random() < 0.5 else ("require", fw(), inner)
     if r < 0.14:
         return ("not", sub())
     if r < 0.32:
